@@ -1061,6 +1061,14 @@ public:
   {
     auto max_ptr = (typename T_Sbx::T_PointerType)(get_total_memory() - 1);
     auto idx = app_ptr_map.get_app_pointer_idx((void*)ptr, max_ptr);
+    // if the registration is refused below, the index must not stay registered
+    // without an owner
+    bool registered = false;
+    auto release_idx_on_failure = detail::make_scope_exit([&] {
+      if (!registered) {
+        app_ptr_map.remove_app_ptr(idx);
+      }
+    });
     // the backend hook takes the pointer type (it may treat pointers to
     // functions differently): the app pointer is a T*, an object pointer
     auto idx_as_ptr = this->template impl_get_unsandboxed_pointer<T*>(idx);
@@ -1074,6 +1082,7 @@ public:
                           "rlbox sandbox plugin. Please file a bug.");
     auto ret = app_pointer<T*, T_Sbx>(
       &app_ptr_map, idx, reinterpret_cast<T*>(idx_as_ptr));
+    registered = true;
     return ret;
   }
 
